@@ -50,6 +50,30 @@ Example C03_fixpoint_example :
   inv (out_final r1) = Some [0; 1] /\ reqs_of (out_trace r2) = [] /\ out_final r2 = out_final r1.
 Proof. vm_compute. repeat split; reflexivity. Qed.
 
+(* an object held by a finalizer: the delete of object 1 is accepted, the object stays (terminating);
+   the delete wait times out, so object 1 is RETAINED in the inventory (reconcile Timeout clause of the
+   equation) while object 2 (no finalizer) leaves it; an identical second run finds object 1 still
+   tracked and live, deletes it again, and leaves cluster and inventory unchanged.  The executable
+   monitor of the correspondence (mon_C03, with its clause "objects whose delete succeeded are gone,
+   unless a finalizer holds them") and the fixpoint check accept the history. *)
+From CliUtils Require Import Corr.CorrPipeline.
+Example C03_finalizer_history :
+  let univ := [mkU KNs None None; mkUF KPlain None None true; mkU KPlain None None] in
+  let o := mkO false true PMustMatch DNone VSkipInvalid false false true false PropBackground false in
+  let sc := mkSc univ None [] o
+                 (mkE [] [mkW [mkS 2 SNotFound false 0%N 0%Z; mkS 1 STerminating true 5%N 2%Z] WTimeout] CNever None) in
+  let obj i u := mkC i u OOurs false [] false 1 None in
+  let c0 := mkCl [obj 1 5%N; obj 2 6%N] (Some [1; 2]) 9%N in
+  let r1 := run sc c0 in
+  let r2 := run sc (out_final r1) in
+  reqs_of (out_trace r1) = [RInvUpdate [1; 2]; RDelete 2 6%N PropBackground; RDelete 1 5%N PropBackground; RInvUpdate [1]] /\
+  In (IEv (EWait (GWait, 0) 1 WTimedOut)) (out_trace r1) /\
+  out_final r1 = mkCl [obj 1 5%N] (Some [1]) 9%N /\
+  reqs_of (out_trace r2) = [RInvUpdate [1]; RDelete 1 5%N PropBackground] /\
+  out_final r2 = out_final r1 /\
+  mon_C03 sc c0 r1 = true /\ mon_C03 sc (out_final r1) r2 = true /\ c03_fixpoint c0 [(sc, r1); (sc, r2)] = true.
+Proof. vm_compute. repeat split; try reflexivity. tauto. Qed.
+
 Print Assumptions C03_inventory_equation_partial.
 Print Assumptions C03_final_write.
 Print Assumptions C03_detached_leave.
